@@ -11,13 +11,15 @@
 //!
 //! case line (same grammar as ocaml/c06/driver.ml):
 //!   Q <id> <max_paths> <fabrics> <accessor> <nodes> <requests>
-//!     fabrics   C05 grammar: - | idx:entries:groups('|'...)   entry = priv,auth,efab,subjects,targets
+//!     fabrics   table('!'table)*: alternative ACL tables over the same fabrics (table 0 is in force at the start of a request)
+//!               table = C05 grammar: - | idx:entries:groups('|'...)   entry = priv,auth,efab,subjects,targets
 //!     accessor  SC,fab,peer,c1/c2/c3,0,0 | SP,fab,n,0/0/0,0,0
 //!     nodes     node('#'node)*     node = - | ep('|'ep)*     ep = id~dts~clusters
 //!               clusters = - | cluster('+'cluster)*          cluster = id=attrs=cmds
 //!               attrs/cmds = - | leaf('/'leaf)*              leaf = id.access.on
 //!     requests  request(';'request)*   request = op,flag,ff,win,elapsed,swaps,items
-//!               op R|W|I; win n|<ms>; swaps - | k>j(':'k>j)*; items item('&'item)*
+//!               op R|W|I; win n|<ms>; swaps - | k>j[/a](':'k>j[/a])*  (after k handler calls: node j, ACL table a);
+//!               items item('&'item)*
 //!               item = ep.cl.leaf[^ref]   (x = wildcard)
 //! output:  Q <id> <resp>( <resp>)*
 //!     resp = X<code> | I[entry,..]L[call,..] | E<text>
@@ -165,6 +167,22 @@ fn build_fabrics(matter: &Matter<'_>, fabs: &str) {
     });
 }
 
+/// Replace the ACL entries of every fabric by those of `table` (same fabrics, other entries).
+fn apply_acl(matter: &Matter<'_>, table: &str) {
+    matter.with_state(|state| {
+        for f in plist(table, '|') {
+            let d: Vec<&str> = f.split(':').collect();
+            let idx = NonZeroU8::new(d[0].parse::<u8>().unwrap()).unwrap();
+            if let Some(fabric) = state.fabrics.get_mut(idx) {
+                fabric.acl_remove_all();
+                for e in plist(d[1], '+') {
+                    let _ = fabric.acl_add(build_entry(e));
+                }
+            }
+        }
+    });
+}
+
 // ------------------------------------------------------------------ synthetic node metadata
 
 fn attr_selected(a: &Attribute, _rev: u16, _fm: u32) -> bool {
@@ -220,20 +238,23 @@ fn build_node(s: &str) -> &'static Node<'static> {
 
 // ------------------------------------------------------------------ instrumented handler
 
-struct Hnd {
+struct Hnd<'a> {
+    dev: &'a Matter<'a>,
     nodes: Vec<&'static Node<'static>>,
+    acls: Vec<String>,
     cur: Cell<usize>,
-    swaps: RefCell<Vec<(usize, usize)>>,
+    cur_acl: Cell<usize>,
+    swaps: RefCell<Vec<(usize, usize, usize)>>,
     calls: Cell<usize>,
     log: RefCell<Vec<String>>,
 }
 
-/// Model/Im.v `config_at`
-fn config_at(sw: &[(usize, usize)], ncalls: usize) -> usize {
-    let mut cur = 0;
-    for (k, j) in sw {
+/// Model/Im.v `config_at`: (node index, ACL table index) in force after `ncalls` handler calls
+fn config_at(sw: &[(usize, usize, usize)], ncalls: usize) -> (usize, usize) {
+    let mut cur = (0, 0);
+    for (k, j, a) in sw {
         if *k <= ncalls {
-            cur = *j;
+            cur = (*j, *a);
         } else {
             break;
         }
@@ -241,21 +262,29 @@ fn config_at(sw: &[(usize, usize)], ncalls: usize) -> usize {
     cur
 }
 
-impl Hnd {
-    fn begin(&self, swaps: Vec<(usize, usize)>) {
+impl Hnd<'_> {
+    fn switch_to(&self, cfg: (usize, usize)) {
+        self.cur.set(cfg.0.min(self.nodes.len() - 1));
+        let a = cfg.1.min(self.acls.len() - 1);
+        if a != self.cur_acl.get() {
+            apply_acl(self.dev, &self.acls[a]);
+            self.cur_acl.set(a);
+        }
+    }
+    fn begin(&self, swaps: Vec<(usize, usize, usize)>) {
         self.calls.set(0);
-        self.cur.set(config_at(&swaps, 0));
+        self.switch_to(config_at(&swaps, 0));
         *self.swaps.borrow_mut() = swaps;
         self.log.borrow_mut().clear();
     }
     fn tick(&self) {
         self.calls.set(self.calls.get() + 1);
-        let j = config_at(&self.swaps.borrow(), self.calls.get());
-        self.cur.set(j.min(self.nodes.len() - 1));
+        let cfg = config_at(&self.swaps.borrow(), self.calls.get());
+        self.switch_to(cfg);
     }
 }
 
-impl Metadata for Hnd {
+impl Metadata for Hnd<'_> {
     fn access<F, R>(&self, f: F) -> R
     where
         F: FnOnce(&Node<'_>) -> R,
@@ -264,7 +293,7 @@ impl Metadata for Hnd {
     }
 }
 
-impl AsyncHandler for Hnd {
+impl AsyncHandler for Hnd<'_> {
     fn read_awaits(&self, _ctx: impl ReadContext) -> bool {
         false
     }
@@ -334,7 +363,7 @@ struct Req {
     ff: bool,
     win: Option<u16>,
     elapsed: u64,
-    swaps: Vec<(usize, usize)>,
+    swaps: Vec<(usize, usize, usize)>,
     items: Vec<Item>,
 }
 
@@ -364,7 +393,11 @@ fn parse_req(s: &str) -> Req {
             .into_iter()
             .map(|x| {
                 let (k, j) = x.split_once('>').unwrap();
-                (k.parse().unwrap(), j.parse().unwrap())
+                let (j, a) = match j.split_once('/') {
+                    Some((j, a)) => (j, a.parse().unwrap()),
+                    None => (j, 0),
+                };
+                (k.parse().unwrap(), j.parse().unwrap(), a)
             })
             .collect(),
         items: plist(f[6], '&').into_iter().map(parse_item).collect(),
@@ -614,7 +647,8 @@ fn run_line(line: &str, out: &mut String) {
 
     let crypto = test_only_crypto();
     let dev = Matter::new(leaked_dev_det(max_paths), TEST_DEV_COMM, &TEST_DEV_ATT, 5540);
-    build_fabrics(&dev, f[3]);
+    let acls: Vec<String> = f[3].split('!').map(|x| x.to_string()).collect();
+    build_fabrics(&dev, &acls[0]);
     let ctl = e2e::new_matter(&TEST_DEV_DET, true);
 
     // device side: the session under test; controller side: a CASE session with the same ids
@@ -630,8 +664,11 @@ fn run_line(line: &str, out: &mut String) {
     let (c_tx, c_rx) = net.attach(CTL);
 
     let hnd = Hnd {
+        dev: &dev,
         nodes,
+        acls,
         cur: Cell::new(0),
+        cur_acl: Cell::new(0),
         swaps: RefCell::new(Vec::new()),
         calls: Cell::new(0),
         log: RefCell::new(Vec::new()),
@@ -906,13 +943,13 @@ fn pick_path(rng: &mut Rng, node: &[GEp], cmd: bool, wild_p: u64) -> (String, St
     (e, c, l)
 }
 
-fn rand_request(rng: &mut Rng, nodes: &[Vec<GEp>], hist: &mut BTreeMap<String, u64>, big: bool) -> String {
+fn rand_request(rng: &mut Rng, nodes: &[Vec<GEp>], hist: &mut BTreeMap<String, u64>, big: bool, two_acls: bool) -> String {
     let op = *rng.pick(&['R', 'R', 'W', 'I']);
     let node = &nodes[0];
     let nitems = if big { 1 } else { rng.range(1, 4) as usize };
     let mut items: Vec<String> = Vec::new();
     for i in 0..nitems {
-        if i > 0 && rng.chance(3, 10) {
+        if i > 0 && rng.chance(if op == 'I' { 1 } else { 6 }, 20) {
             // a repeat of an earlier item
             let prev = items[rng.below(items.len() as u64) as usize].clone();
             items.push(prev);
@@ -924,7 +961,7 @@ fn rand_request(rng: &mut Rng, nodes: &[Vec<GEp>], hist: &mut BTreeMap<String, u
             _ => 12,
         };
         let (mut e, mut c, mut l) = pick_path(rng, node, op == 'I', wild_p);
-        if op == 'R' && c == "x" && l != "x" && !rng.chance(1, 6) {
+        if op == 'R' && c == "x" && l != "x" && !rng.chance(1, 12) {
             // cluster wildcard + concrete attribute is only legal for global attributes
             l = if rng.chance(1, 2) { "65533".into() } else { "x".into() };
         }
@@ -952,9 +989,9 @@ fn rand_request(rng: &mut Rng, nodes: &[Vec<GEp>], hist: &mut BTreeMap<String, u
         for (i, it) in items.iter_mut().enumerate() {
             let r = if n == 1 {
                 if rng.chance(1, 2) { None } else { Some(7) }
-            } else if rng.chance(1, 12) {
+            } else if rng.chance(1, 25) {
                 None
-            } else if rng.chance(1, 12) {
+            } else if rng.chance(1, 25) {
                 Some(1)
             } else {
                 Some(i as u16 + 1)
@@ -980,7 +1017,24 @@ fn rand_request(rng: &mut Rng, nodes: &[Vec<GEp>], hist: &mut BTreeMap<String, u
     let swaps = if nodes.len() > 1 {
         let mut ks: Vec<u64> = (1..nodes.len()).map(|_| rng.range(0, if big { 40 } else { 5 })).collect();
         ks.sort();
-        ks.iter().enumerate().map(|(i, k)| format!("{k}>{}", i + 1)).collect::<Vec<_>>().join(":")
+        ks.iter()
+            .enumerate()
+            .map(|(i, k)| {
+                if two_acls {
+                    format!("{k}>{}/{}", i + 1, rng.below(2))
+                } else {
+                    format!("{k}>{}", i + 1)
+                }
+            })
+            .collect::<Vec<_>>()
+            .join(":")
+    } else if two_acls {
+        let k1 = rng.range(0, 4);
+        if rng.chance(1, 3) {
+            format!("{k1}>0/1:{}>0/0", k1 + rng.range(1, 3))
+        } else {
+            format!("{k1}>0/1")
+        }
     } else {
         "-".to_string()
     };
@@ -1084,12 +1138,34 @@ fn generate(tier: &str, seed: u64) -> (Vec<String>, BTreeMap<String, u64>) {
         *hist.entry("swap_scripted_lines".into()).or_insert(0) += 1;
     }
 
+    // ---- access control lists replaced between steps (what the last_authorized cache is for):
+    //      table 0 grants, table 1 grants nothing; the switch happens after the k-th handler call
+    let none = "1:-:-|2:-:-";
+    let acl_node = "0~22~31=0.57.1/1.57.1=0.46.1+6=0.17.1/1.57.1=0.46.1/1.46.1|1~e~6=0.17.1/1.57.1=-";
+    for (t0, t1) in [(admin.as_str(), none), (none, admin.as_str()), (admin.as_str(), viewer.as_str()), (viewer.as_str(), admin.as_str())] {
+        let mut reqs = Vec::new();
+        for k in 0..=3 {
+            reqs.push(format!("W,0,0,n,0,{k}>0/1,0.31.0&0.31.0&0.31.1&0.31.0&0.31.0"));
+            reqs.push(format!("R,0,0,n,0,{k}>0/1,0.6.0&0.6.0&0.6.1&0.6.0&x.6.0&1.6.0"));
+        }
+        reqs.push("R,0,0,n,0,2>0/1,x.x.x".to_string());
+        reqs.push("R,0,0,n,0,1>0/1:3>0/0,x.x.x".to_string());
+        reqs.push("I,0,0,n,0,1>0/1,0.6.0^1&0.6.1^2".to_string());
+        cases.push(format!("Q {} 4 {}!{} SC,1,{N1},0/0/0,0,0 {} {}", nid(), t0, t1, acl_node, reqs.join(";")));
+        *hist.entry("acl_switch_scripted_lines".into()).or_insert(0) += 1;
+    }
+
     // ---- random stream
-    let n_rand = if thorough { 9000 } else { 420 };
+    let n_rand = if thorough { 30000 } else { 2500 };
     for i in 0..n_rand {
         let (acc, peer) = rand_accessor(&mut rng);
-        let fabs = rand_fabrics(&mut rng, peer);
+        let mut fabs = rand_fabrics(&mut rng, peer);
         let big = i % 25 == 24;
+        let two_acls = rng.chance(1, 8);
+        if two_acls {
+            fabs = format!("{}!{}", fabs, rand_fabrics(&mut rng, peer));
+            *hist.entry("lines_two_acl_tables".into()).or_insert(0) += 1;
+        }
         let n0 = if big {
             // a long answer: several ReportData chunks
             let mut n = Vec::new();
@@ -1121,8 +1197,8 @@ fn generate(tier: &str, seed: u64) -> (Vec<String>, BTreeMap<String, u64>) {
             *hist.entry("lines_long_answer".into()).or_insert(0) += 1;
         }
         let nreq = if big { 2 } else { rng.range(3, 6) };
-        let reqs: Vec<String> = (0..nreq).map(|_| rand_request(&mut rng, &nodes, &mut hist, big)).collect();
-        let mp = *rng.pick(&[1u16, 2, 4, 4]);
+        let reqs: Vec<String> = (0..nreq).map(|_| rand_request(&mut rng, &nodes, &mut hist, big, two_acls)).collect();
+        let mp = *rng.pick(&[2u16, 4, 4, 6]);
         cases.push(format!(
             "Q {} {} {} {} {} {}",
             nid(),
